@@ -630,7 +630,9 @@ def bounded(tier, seed):
     stream = b''.join(tnetstrings.dump(m) + b'\n' for m in msgs)
     cuts = list(range(1, len(stream)))
     if tier == 'quick':
-        cuts = rng.sample(cuts, 14)
+        # always the cuts that make a received block begin or end with a newline (separator or payload byte), plus a sample of the others
+        edge = [k for k in cuts if stream[k] == 10 or stream[k - 1] == 10]
+        cuts = sorted(set(edge + rng.sample(cuts, 8)))
     for k in [None] + cuts:
         chunks = [stream] if k is None else [stream[:k], stream[k:]]
         ev += 1
